@@ -4,7 +4,7 @@ CONSTANTS
   UnOpsG = {"-", "not", "#"}
   LeafKindsG = {"call", "vararg", "num"}
   ContextsG = {"local", "local2", "return", "arg", "argfirst", "if", "tpos", "prefix"}
-  MaxDev = 1
+  MaxDev = 2
   MaxPar = 2
   Shapes = {"bb_l", "bb_r", "bu_l", "bu_r", "ub", "uu", "b", "u", "l"}
 INVARIANT Emit
